@@ -551,7 +551,11 @@ def _seg_config(ctx, idx):
                 float_dtype=r.choice(['float64', 'float32']),
                 # which tiles hold anything: independent per tile ('bernoulli') or only 1-3 tiles, the bottom-right corner tile and
                 # the tiles of the last tile row / column preferred ('few'); content of a live tile: dense or a single pixel
-                live_mode=r.choice(['bernoulli', 'bernoulli', 'few', 'few-single-pixel']))
+                live_mode=r.choice(['bernoulli', 'bernoulli', 'few', 'few-single-pixel']),
+                # frame encoding of the tiles: native, or RLE Lossless (8-bit types only) encoded in the constructor's own loop
+                # (workers = 0), by a process pool of 2 workers, or by an executor handed in
+                codec=r.choice(['native', 'native', 'native', 'rle']) if typ != 'BINARY' else 'native',
+                workers=r.choice([0, 2, 'thread-pool']))
 
 
 def _seg_mask(ctx, cfg):
@@ -860,9 +864,20 @@ def _check_seg(ctx, cfg, reqs, pending):
             tuple(getattr(np, sp[3:])(v) for v in cfg['tile'])
     if cfg.get('mfv'):
         kw['max_fractional_value'] = cfg['mfv']
+    pool = None
+    if cfg.get('codec', 'native') == 'rle':
+        kw['transfer_syntax_uid'] = '1.2.840.10008.1.2.5'
+        if cfg.get('workers', 0) == 'thread-pool':
+            from concurrent.futures import ThreadPoolExecutor
+            pool = ThreadPoolExecutor(2)
+            kw['workers'] = pool
+        else:
+            kw['workers'] = cfg.get('workers', 0)
     st, seg = _fetch(hd.seg.Segmentation, [src], handed, cfg['type'], [seg_description(s) for s in range(1, n + 1)],
                      hd.UID(), 1, hd.UID(), 1, 'verif', 'model', '1', 'dev', tile_pixel_array=True,
                      omit_empty_frames=cfg['omit_empty'], **kw)
+    if pool is not None:
+        pool.shutdown()
     # TILED_FULL with omit_empty_frames is refused -- unless the whole mask is empty (omit_empty_frames is then switched off first)
     expect_refusal = cfg['org'] == 'TILED_FULL' and cfg['omit_empty'] and any(e.any() for e in E.values())
     full = cfg['org'] == 'TILED_FULL'
@@ -872,7 +887,8 @@ def _check_seg(ctx, cfg, reqs, pending):
                      org_spelling=cfg.get('org_spelling', 'str'), remainder=(min(R % th, 2), min(C % tw, 2)),
                      tile_spelling=cfg.get('tile_spelling', 'tuple') if cfg['tile'] is not None else 'default',
                      entry=cfg.get('entry', 'segread') if cfg['roundtrip'] else 'constructor',
-                     live_tiles=cfg.get('live_mode', 'bernoulli') if cfg['style'] != 'quantisation-boundary' else 'n/a')
+                     live_tiles=cfg.get('live_mode', 'bernoulli') if cfg['style'] != 'quantisation-boundary' else 'n/a',
+                     frame_encoding=cfg.get('codec', 'native') + ('/workers=' + str(cfg.get('workers', 0)) if cfg.get('codec') == 'rle' else ''))
     segs = list(range(1, n + 1))
     mats = [E[s].tolist() for s in segs]
     # the bottom-right corner tile: partial in both directions / one / none, and does it hold anything; how many tiles hold anything
